@@ -44,6 +44,54 @@ class SelExpr(object):
         return r
 
 
+class SymSelect(object):
+    """Wraps the REAL tag expression: the element's effective tags (computed by behave's real
+    inheritance code) are provenance-coded names "<tag>__<element>"; presence of each is a
+    symbolic Boolean, so the real expression is evaluated on a SymTagSet."""
+
+    def __init__(self, expr, world):
+        self.expr = expr
+        self.w = world
+
+    def members(self, tags):
+        import z3
+        from symx import SymTagSet, zbool
+        universe = list(self.w.opts["tag_universe"])
+        acc = {t: [] for t in universe}
+        for t in sorted(tags):
+            if "__" in t:
+                name, eid = t.split("__", 1)
+                acc.setdefault(name, []).append(self.w.has(eid, name))
+                if name not in universe:
+                    universe.append(name)
+            else:
+                acc.setdefault(t, []).append(True)
+                if t not in universe:
+                    universe.append(t)
+        return universe, acc
+
+    def check(self, tags):
+        import z3
+        from symx import SymTagSet, SymBool, zbool
+        universe, acc = self.members(tags)
+        if self.w.sx.symbolic:
+            member = {}
+            for t in universe:
+                vs = acc.get(t, [])
+                if any(v is True for v in vs):
+                    member[t] = True
+                elif not vs:
+                    member[t] = False
+                else:
+                    member[t] = vs[0] if len(vs) == 1 else SymBool(z3.Or([zbool(v) for v in vs]))
+            return self.expr.check(SymTagSet(universe, member, lazy=True))
+        present = [t for t in universe if any(bool(v) for v in acc.get(t, []))]
+        return self.expr.check(present)
+
+    def to_string(self, pretty=True):
+        return self.expr.to_string(pretty)
+
+
 class GatedMatcher(object):
     """Wraps the real matcher of the single step definition: a step text is 'undefined' iff
     UNDEF[src] - the set of available step definitions is environment."""
@@ -82,10 +130,12 @@ class World(object):
         self.attempt = {}
         self._out = {}
         self._converr = {}
+        self._has = {}
         self._undef = {}
         self._sel = {}
         self._clean = {}
-        self.rendered = [shapes.render_feature(s, i, markers=bool(self.opts.get("select")))
+        self.rendered = [shapes.render_feature(s, i, markers=bool(self.opts.get("select")),
+                                               ptags=self.opts.get("ptags", ()))
                          for i, s in enumerate(feature_shapes)]
         self._build(config_args)
 
@@ -104,6 +154,8 @@ class World(object):
         return self._out[k]
 
     def undef(self, src):
+        if not self.opts.get("undef", True):
+            return False
         if src not in self._undef:
             self._undef[src] = self.sx.bool("undef:%s" % src)
         return self._undef[src]
@@ -117,6 +169,12 @@ class World(object):
         if marker not in self._sel:
             self._sel[marker] = self.sx.bool("sel:%s" % marker)
         return self._sel[marker]
+
+    def has(self, eid, name):
+        k = (eid, name)
+        if k not in self._has:
+            self._has[k] = self.sx.bool("has:%s:%s" % (eid, name))
+        return self._has[k]
 
     def clean(self, key):
         if key not in self._clean:
@@ -150,6 +208,12 @@ class World(object):
             cfg.show_skipped = o["show_skipped"]
         if o.get("select"):
             cfg.tag_expression = SelExpr(self)
+        if o.get("tag_expr"):
+            from behave.tag_expression.builder import make_tag_expression, TagExpressionProtocol
+            te = o["tag_expr"]
+            proto = {"v1": TagExpressionProtocol.V1, "v2": TagExpressionProtocol.V2,
+                     "auto": TagExpressionProtocol.AUTO_DETECT}[te.get("protocol", "auto")]
+            cfg.tag_expression = SymSelect(make_tag_expression(te["text"], proto), self)
         reg = self.registry = StepRegistry()
         stepfn = self._stepfn
         if o.get("async_steps"):
